@@ -4,7 +4,8 @@ from props.c01 import FINISH
 
 THEOREMS = ["Slock.C05.reachable_WInv", "Slock.C05.C05_deadline", "Slock.C05.C05_not_early", "Slock.C05.C05_zero", "Slock.C05.C05_zero_effect",
             "Slock.C05.C05_fire_effect", "Slock.C05.C05_not_late_step_partial", "Slock.Engine.wheelAdd_spec", "Slock.Engine.wheelAdd_late",
-            "Slock.Engine.consts_match"]
+            "Slock.Engine.consts_match",
+            "Slock.C05.reachable_KN", "Slock.C05.reachable_QU", "Slock.C05.reachable_ahead", "Slock.C05.C05_scheduled_ahead", "Slock.C05.C05_not_late", "Slock.C05.C05_answered_by_deadline", "Slock.Engine.sweepTimeout_good"]
 
 
 def run(ctx):
